@@ -218,6 +218,23 @@ impl<'a> PGen<'a> {
         }
     }
 
+    /// Boundary-sized operand: around 2^64, 2^63, 2^32 and the end of VM memory.
+    fn huge(&mut self) -> u64 {
+        match self.g.below(7) {
+            0 | 1 => u64::MAX - self.g.below(9),
+            2 => 1u64 << 63,
+            3 => (1u64 << 32) - 1 + self.g.below(3),
+            4 => (1u64 << 26) - self.g.below(9),
+            5 => (1u64 << 26) + self.g.below(9),
+            _ => 1u64 << 62,
+        }
+    }
+
+    /// Length / offset operand of a wild item: mostly small (capped), one in six boundary-sized.
+    fn wild_len(&mut self, cap: u64) -> u64 {
+        if self.g.below(6) == 0 { self.huge() } else { self.biased_small().min(cap) }
+    }
+
     pub fn preamble(&mut self) {
         if self.is_script {
             emit!(self, ri12(O::GTF, TAB, ZERO, fuel_asm::GTFArgs::ScriptData as u32));
@@ -356,7 +373,7 @@ impl<'a> PGen<'a> {
             3 => emit!(self, ri12(O::LB, d, A, imm)),
             4 => {
                 // copy between the two owned buffers (never overlapping in safe form)
-                let n = if wild { self.biased_small() } else { self.g.below(64) };
+                let n = if wild { self.wild_len(1 << 12) } else { self.g.below(64) };
                 emit!(self, ri12(O::ADDI, A, HEAP, self.g.below(64) as u32));
                 if wild && self.g.bool() {
                     emit!(self, ri12(O::ADDI, B, HEAP, self.g.below(96) as u32));
@@ -377,14 +394,14 @@ impl<'a> PGen<'a> {
                 emit!(self, ri12(O::MCPI, A, B, n));
             }
             6 => {
-                let n = if wild { self.biased_small() } else { self.g.below(64) };
+                let n = if wild { self.wild_len(1 << 12) } else { self.g.below(64) };
                 self.load_const(C, n);
                 emit!(self, r2(O::MCL, A, C));
             }
             7 => emit!(self, ri18(O::MCLI, A, if wild { self.g.below(5000) } else { self.g.below(64) } as u32)),
             8 => {
                 self.owned_addr(B, 80);
-                let n = if wild { self.biased_small() } else { self.g.below(64) };
+                let n = if wild { self.wild_len(1 << 12) } else { self.g.below(64) };
                 self.load_const(C, n);
                 emit!(self, r4(O::MEQ, d, A, B, C));
             }
@@ -455,12 +472,12 @@ impl<'a> PGen<'a> {
             0 => emit!(self, i24(O::CFEI, self.g.below(200) as u32)),
             1 => emit!(self, i24(O::CFSI, self.g.below(400) as u32)),
             2 => {
-                let n = self.biased_small();
+                let n = self.wild_len(1 << 12);
                 self.load_const(C, n);
                 emit!(self, r1(O::CFE, C));
             }
             3 => {
-                let n = self.biased_small();
+                let n = self.wild_len(1 << 12);
                 self.load_const(C, n);
                 emit!(self, r1(O::CFS, C));
             }
@@ -538,21 +555,25 @@ impl<'a> PGen<'a> {
             }
             7 | 8 => {
                 // register jumps with boundary-biased operands (mostly panic or land far away)
-                let v = match self.g.below(6) {
+                let v = match self.g.below(8) {
                     0 => self.g.below(64),
                     1 => (1u64 << 24) - self.g.below(4),
                     2 => (1u64 << 26) / 4 - self.g.below(4),
                     3 => 1u64 << 62,
                     4 => u64::MAX,
+                    // byte addresses around the end of memory (JAL takes bytes, unaligned allowed)
+                    5 => (1u64 << 26) - self.g.below(10),
+                    6 => u64::MAX - self.g.below(40),
                     _ => self.out.len() as u64 + 1,
                 };
                 self.load_const(A, v);
-                let w = match self.g.below(6) {
+                let w = match self.g.below(7) {
                     0 => r1(O::JMP, A),
                     1 => r3(O::JNE, A, ZERO, ONE),
                     2 => ri18(O::JMPF, A, 0),
                     3 => ri18(O::JMPB, A, 0),
                     4 => ri12(O::JNZB, ONE, A, self.g.below(8) as u32),
+                    5 => ri12(O::JAL, ZERO, A, self.g.below(3) as u32),
                     _ => ri12(O::JAL, LINK, A, self.g.below(8) as u32),
                 };
                 emit!(self, w);
@@ -622,7 +643,7 @@ impl<'a> PGen<'a> {
                 emit!(self, r2(O::SCLR, A, C));
             }
             6 => {
-                let (off, len) = if wild { (self.g.below(40), self.biased_small().min(120)) } else { (self.g.below(8), self.g.below(24)) };
+                let (off, len) = if wild { (self.wild_len(40), self.wild_len(120)) } else { (self.g.below(8), self.g.below(24)) };
                 self.load_const(B, off);
                 self.load_const(C, len);
                 emit!(self, r4(O::SRDD, dst, A, B, C));
@@ -639,7 +660,7 @@ impl<'a> PGen<'a> {
             }
             9 => emit!(self, ri12(O::SWRI, A, HEAP, *self.g.pick(&[0u32, 8, 31, 32, 33, 120]))),
             10 => {
-                let (off, len) = if wild { (self.g.below(40), self.biased_small().min(64)) } else { (self.g.below(16), self.g.below(16)) };
+                let (off, len) = if wild { (self.wild_len(40), self.wild_len(64)) } else { (self.g.below(16), self.g.below(16)) };
                 self.load_const(B, off);
                 self.load_const(C, len);
                 emit!(self, r4(O::SUPD, A, HEAP, B, C));
@@ -812,7 +833,7 @@ impl<'a> PGen<'a> {
                 emit!(self, r2(O::CROO, B, A));
             }
             2 => {
-                let (off, len) = if wild { (self.g.below(300), self.biased_small().min(400)) } else { (self.g.below(64), self.g.below(200)) };
+                let (off, len) = if wild { (self.wild_len(300), self.wild_len(400)) } else { (self.g.below(64), self.g.below(200)) };
                 self.load_const(C, off);
                 self.load_const(D, len);
                 if wild && self.g.bool() {
@@ -827,7 +848,7 @@ impl<'a> PGen<'a> {
                 if !wild || self.g.bool() {
                     emit!(self, i24(O::CFSI, STK_BUF + self.stk_pad));
                 }
-                let (off, len) = (self.g.below(16) * 4, self.g.below(12) * 4);
+                let (off, len) = if wild && self.g.below(3) == 0 { (self.wild_len(64), self.wild_len(48)) } else { (self.g.below(16) * 4, self.g.below(12) * 4) };
                 self.load_const(C, off);
                 self.load_const(D, len);
                 let mode = if self.n_blobs == 0 && !wild { 0 } else { self.g.below(3) as u8 };
@@ -852,7 +873,7 @@ impl<'a> PGen<'a> {
             }
             6 if self.n_blobs > 0 || wild => {
                 emit!(self, ri12(O::ADDI, B, TAB, OFF_MISC + blob * 32));
-                let (off, len) = if wild { (self.g.below(300), self.biased_small().min(300)) } else { (self.g.below(8), self.g.below(100)) };
+                let (off, len) = if wild { (self.wild_len(300), self.wild_len(300)) } else { (self.g.below(8), self.g.below(100)) };
                 self.load_const(C, off);
                 self.load_const(D, len);
                 emit!(self, r4(O::BLDD, HEAP, B, C, D));
@@ -875,7 +896,7 @@ impl<'a> PGen<'a> {
             } else {
                 self.owned_addr(A, 200);
             }
-            let n = if wild { self.biased_small() } else { self.g.below(48) };
+            let n = if wild { self.wild_len(1 << 12) } else { self.g.below(48) };
             self.load_const(C, n);
             let (a, b) = (self.sreg(), self.sreg());
             emit!(self, r4(O::LOGD, a, b, A, C));
@@ -924,7 +945,7 @@ impl<'a> PGen<'a> {
     fn crypto(&mut self) {
         let wild = self.wild();
         self.owned_addr(A, 200);
-        let n = if wild { self.biased_small().min(400) } else { self.g.below(64) };
+        let n = if wild { self.wild_len(400) } else { self.g.below(64) };
         self.load_const(C, n);
         if wild && self.g.bool() {
             self.foreign_addr(B);
